@@ -129,7 +129,7 @@ class igmp (packet_base):
           off,gr = GroupRecord.unpack_new(self.extra)
           self.extra = self.extra[off:]
           self.group_records.append(gr)
-      except struct.error:
+      except (struct.error, OSError, ValueError, RuntimeError):
         self.msg('packet data too short for its group records')
         return None
 
